@@ -241,3 +241,13 @@ def balance2_multi(maxseq=4, **kw):
 
 
 ALL.update(balance2_multi=balance2_multi)
+
+
+def with_exit(topo, who, at, kind='clean', prop=('clean', 'error'), obey=('clean', 'error')):
+    """filter `who` ends itself at original frame `at`; every filter has the same propagate / obey policy"""
+    for f, d in topo.filters.items():
+        d['prop_exit'], d['obey_exit'] = list(prop), list(obey)
+    topo.filters[who]['exit_at'] = at
+    topo.filters[who]['exit_kind'] = kind
+    topo.name += f'Exit{who}{at}{kind[0]}'
+    return topo
